@@ -5,3 +5,9 @@ pub mod dnswire;
 pub mod auth_ref;
 pub mod frontdoor_ref;
 pub mod wire_lite;
+pub mod dnssec_wire;
+pub mod tbs_ref;
+pub mod val_ref;
+pub mod authsim;
+pub mod cache_ref;
+pub mod zonefile_printer;
